@@ -30,6 +30,15 @@ type vLeaf struct {
 	entry  string   // id of the enclosing list entry ("" = none)
 	keyOf  string   // non-empty: this is the key leaf of that entry (value = keyVal)
 	keyVal string
+	// extensions used by the validator scenarios (C04)
+	strMax   int    // > 0: string leaf with a symbolic value of 0..strMax characters over alphabet
+	alphabet string
+	strLens  []int // non-empty: the length is one of these (forked)
+	isInt    bool // signed integer leaf (IntVal)
+	intLo    int64
+	intHi    int64
+	ll       bool // leaf-list of strings: the value is "e0".."e<n-1>", n in 0..llMax
+	llMax    int
 }
 
 func (l *vLeaf) path() *sdcpb.Path {
@@ -196,6 +205,8 @@ func vScenarioOnePath2() *vScenario {
 type vVal struct {
 	u uint64
 	s string
+	i int64
+	n int // leaf-list: number of elements
 }
 
 func (l *vLeaf) tv(v vVal) *sdcpb.TypedValue {
@@ -207,6 +218,16 @@ func (l *vLeaf) tv(v vVal) *sdcpb.TypedValue {
 	}
 	if l.isUint {
 		return vUintTV(v.u)
+	}
+	if l.isInt {
+		return &sdcpb.TypedValue{Value: &sdcpb.TypedValue_IntVal{IntVal: v.i}}
+	}
+	if l.ll {
+		arr := &sdcpb.ScalarArray{}
+		for k := 0; k < v.n; k++ {
+			arr.Element = append(arr.Element, vStrTV("e"+string(rune('0'+k))))
+		}
+		return &sdcpb.TypedValue{Value: &sdcpb.TypedValue_LeaflistVal{LeaflistVal: arr}}
 	}
 	return vStrTV(v.s)
 }
@@ -225,6 +246,20 @@ func (l *vLeaf) newVal(tag string) vVal {
 	if len(l.enum) > 0 {
 		return vVal{s: l.enum[verifrt.Choice(tag, len(l.enum))]}
 	}
+	if l.isInt {
+		return vVal{i: verifrt.IntRange(tag, l.intLo, l.intHi)}
+	}
+	if l.ll {
+		return vVal{n: verifrt.Choice(tag, l.llMax+1)}
+	}
+	if l.strMax > 0 {
+		s := verifrt.String(tag, l.strMax, l.alphabet)
+		if len(l.strLens) > 0 {
+			// fork on the length (concrete lengths are far cheaper for the solver)
+			verifrt.Assume(len(s) == l.strLens[verifrt.Choice(tag+".len", len(l.strLens))])
+		}
+		return vVal{s: s}
+	}
 	s := verifrt.String(tag, 1, "ab")
 	verifrt.Assume(len(s) == 1)
 	return vVal{s: s}
@@ -242,6 +277,22 @@ func (l *vLeaf) sameVal(tv *sdcpb.TypedValue, v vVal) bool {
 	if l.isUint {
 		_, ok := tv.GetValue().(*sdcpb.TypedValue_UintVal)
 		return verifrt.And(ok, tv.GetUintVal() == v.u)
+	}
+	if l.isInt {
+		_, ok := tv.GetValue().(*sdcpb.TypedValue_IntVal)
+		return verifrt.And(ok, tv.GetIntVal() == v.i)
+	}
+	if l.ll {
+		el := tv.GetLeaflistVal().GetElement()
+		if tv.GetLeaflistVal() == nil || len(el) != v.n {
+			return false
+		}
+		for k, e := range el {
+			if e.GetStringVal() != "e"+string(rune('0'+k)) {
+				return false
+			}
+		}
+		return true
 	}
 	_, ok := tv.GetValue().(*sdcpb.TypedValue_StringVal)
 	return verifrt.And(ok, tv.GetStringVal() == v.s)
@@ -357,6 +408,12 @@ func (l *vLeaf) eqVal(a, b vVal) bool {
 	}
 	if l.isUint {
 		return a.u == b.u
+	}
+	if l.isInt {
+		return a.i == b.i
+	}
+	if l.ll {
+		return a.n == b.n
 	}
 	return a.s == b.s
 }
